@@ -246,6 +246,9 @@ class ExprMixin:
 
     def isinstance_term(self, st, ref, cls):
         subs = self.classes.subclasses(cls)
+        concrete = [c for c in subs if not getattr(api.MODELS.get(c), 'abstract', False)]
+        if concrete:
+            subs = concrete
         tag = self.cls_of(ref.t)
         return z3.Or([tag == self.classes.cid(c) for c in subs])
 
@@ -615,6 +618,10 @@ class ExprMixin:
     def resolve_global(self, st, name):
         if name in self.extra_names:
             return self.extra_names[name]
+        if name in api.GLOBAL_ALIASES:
+            q = api.GLOBAL_ALIASES[name]
+            ty = parse_type(api.GLOBAL_CONSTS[q])
+            return SV(ty, z3.Const('global_' + q.replace('.', '_'), ty.sort()))
         if name == 'GHOST' and 'Ghost' in api.MODELS:
             # the one ghost object: global specification state (counters of open files, ...)
             return SV(TRef('Ghost'), z3.IntVal(-1))
@@ -679,10 +686,14 @@ class ExprMixin:
         """Module-level constants: literals and tuples of literals; other
         values (compiled regexes, instances) are entities resolved by contracts."""
         node = mod.globals[name]
+        q = mod.name + '.' + name
+        if q in api.GLOBAL_CONSTS:
+            ty = parse_type(api.GLOBAL_CONSTS[q])
+            return SV(ty, z3.Const('global_' + q.replace('.', '_'), ty.sort()))
         try:
             v = ast.literal_eval(node)
         except Exception:
-            return Entity('global', mod.name + '.' + name)
+            return Entity('global', q)
         return self.const_value(v)
 
     def const_value(self, v):
@@ -697,6 +708,18 @@ class ExprMixin:
         if isinstance(v, tuple):
             items = [self.const_value(x) for x in v]
             return SV(TTuple([i.ty for i in items]), tuple(items))
+        if isinstance(v, dict) and v and all(isinstance(k, str) for k in v) and \
+                (all(isinstance(x, int) and not isinstance(x, bool) for x in v.values()) or all(isinstance(x, str) for x in v.values())):
+            # a literal table str -> int / str -> str (insertion order kept)
+            vty = TInt if isinstance(next(iter(v.values())), int) else TStr
+            m = SV(TMap(TStr, vty), empty_map(TMap(TStr, vty)))
+            keys_t = None
+            vals_t = m.ty.vals(m.t)
+            for k, x in v.items():
+                u = sunit(TStr, z3.StringVal(k))
+                keys_t = u if keys_t is None else z3.Concat(keys_t, u)
+                vals_t = z3.Store(vals_t, z3.StringVal(k), z3.IntVal(x) if vty == TInt else z3.StringVal(x))
+            return SV(m.ty, m.ty.mk(keys_t, vals_t))
         raise OutsideSubset('module constant of type ' + type(v).__name__)
 
     def eval_Tuple(self, st, e):
@@ -710,6 +733,9 @@ class ExprMixin:
         return out
 
     def need_value(self, v):
+        if isinstance(v, Entity) and v.kind == 'localfunc':
+            # a nested function used as a value (stored, passed on): an opaque callable
+            return fresh(TOpaque('PyVal'), 'closure')
         if isinstance(v, Entity):
             if v.kind == 'global':
                 raise OutsideSubset('module global %s used as a value' % v.data)
@@ -809,12 +835,38 @@ class ExprMixin:
                 out.extend(self.eval(s2, e.body if truth else e.orelse))
         return out
 
+    def check_percent_format(self, st, e, r):
+        """`"literal" % args`: the number (and, for %d-like conversions, the kind) of arguments must
+        fit the conversion specifiers of the literal, else TypeError / ValueError at run time."""
+        import re as _re
+        if not (isinstance(e.left, ast.Constant) and isinstance(e.left.value, str)):
+            return
+        fmt = e.left.value
+        specs = _re.findall(r'%(\([^)]*\))?[-#0 +]*(\*|\d+)?(?:\.(\*|\d+))?[hlL]?(.)', fmt)
+        convs = [c for (key, w, p, c) in specs if c != '%']
+        if any(key for (key, w, p, c) in specs if c != '%'):
+            return        # mapping form: not checked
+        bad = [c for c in convs if c not in 'diouxXeEfFgGcrsa']
+        nargs = len(r.t) if isinstance(r.ty, TTuple) else 1
+        stars = sum((w == '*') + (p == '*') for (key, w, p, c) in specs if c != '%')
+        ok = not bad and nargs == len(convs) + stars
+        if ok and not stars:
+            args = list(r.t) if isinstance(r.ty, TTuple) else [r]
+            for c, a in zip(convs, args):
+                if c in 'diouxXeEfFgG' and isinstance(a, SV) and (a.ty == TStr or a.ty == TNone or isinstance(a.ty, (TSeq, TMap))):
+                    ok = False
+        if not ok:
+            self.oblige(st, False, 'safety', 'percent-format', node=e,
+                        info={'claim': 'arguments of %%-formatting fit the conversions of %r (TypeError / ValueError)' % fmt})
+
     def eval_BinOp(self, st, e):
         out = []
         for s, (l, r) in self.eval_many(st, [e.left, e.right]):
             if not normal(s):
                 out.append((s, None))
                 continue
+            if isinstance(e.op, ast.Mod) and isinstance(l, SV) and l.ty == TStr and isinstance(r, SV):
+                self.check_percent_format(s, e, r)
             out.append((s, self.binop(s, e.op, self.need_value(l), self.need_value(r), e)))
         return out
 
@@ -947,6 +999,8 @@ class ExprMixin:
             return l.t == r.t
         if l.ty == TStr and r.ty == TStr and (self.spec_depth > 0 or self.in_contract):
             return l.t == r.t
+        if isinstance(l.ty, TOpaque) and l.ty == r.ty and not isinstance(l.ty, TFun):
+            return l.t == r.t          # arbitrary objects: identity is equality of the opaque value
         raise OutsideSubset('identity test on %s / %s' % (l.ty, r.ty))
 
     def is_none(self, v):
